@@ -294,8 +294,26 @@ def build_cases(tier: str):
                 nseqp += 1
                 cases.append(Case(pid, backend, text, md, {"k": "seqparam:" + ctx, "ndev": 0}))
                 pid += 1
+        # rows built as list literals whose columns live in different blocks
+        from mc.lang import listfam
+        nlist = 0
+        for ctx, text in listfam.queries(backend):
+            if text not in seen and (tier != "quick" or backend == "atlas" or ctx.split(":")[0] in ("list2", "obj-list2")):
+                seen.add(text)
+                nlist += 1
+                cases.append(Case(pid, backend, text, md, {"k": "list:" + ctx, "ndev": 0}))
+                pid += 1
+        # property references: data members read without a call, undeclared and declared
+        from mc.lang import memberfam
+        nmem = 0
+        for ctx, text in memberfam.queries(backend):
+            if text not in seen:
+                seen.add(text)
+                nmem += 1
+                cases.append(Case(pid, backend, text, md + memberfam.extra_metadata(backend), {"k": "member:" + ctx, "ndev": 0}))
+                pid += 1
         derived = sum(len(v) for v in g._memo.values())
-        gen_stats[backend] = {"skeletons": nsk, "programs": len(seen), "derived_subterms": derived, "argument_scope_programs": nargs, "explicit_aggregate_programs": naggs, "mixed_scope_programs": nmix, "two_partials_and_flatten_programs": nextra, "intermediate_structure_programs": nstruct, "sequence_parameter_programs": nseqp,
+        gen_stats[backend] = {"skeletons": nsk, "programs": len(seen), "derived_subterms": derived, "argument_scope_programs": nargs, "explicit_aggregate_programs": naggs, "mixed_scope_programs": nmix, "two_partials_and_flatten_programs": nextra, "intermediate_structure_programs": nstruct, "sequence_parameter_programs": nseqp, "member_variable_programs": nmem, "list_row_programs": nlist,
                               "bounds": {"k_d0": k0, "k_d1": k1, "k_d2": k2}}
     return cases, gen_stats
 
